@@ -22,17 +22,35 @@ def _initial_step_length_obligations(repo):
     for path, m in sorted(repo.modules.items()):
         if "/resources/" in path:
             continue
-        for node in ast.walk(m.tree):
-            if isinstance(node, ast.Call) and ast.unparse(node.func) == "SimulationState":
-                kws = {k.arg: ast.unparse(k.value) for k in node.keywords if k.arg}
-                bad = []
-                if not kws.get("sim_timestep_duration_seconds", "").endswith("sim.timestep_duration_seconds"):
-                    bad.append("sim_timestep_duration_seconds = " + kws.get("sim_timestep_duration_seconds", "<class default 60>"))
-                if not kws.get("sim_time", "").endswith("sim.start_time"):
-                    bad.append("sim_time = " + kws.get("sim_time", "<class default>"))
-                out.append({"id": f"C15.initial_state_takes_step_length_from_config.{path}@{node.lineno}", "kind": "call-site-rule",
-                            "status": "refuted" if bad else "proved", "backend": "ast-rule", "secs": 0.0, "props": ["C15"],
-                            "detail": f"line {node.lineno}: " + "; ".join(bad) if bad else ""})
+        # enclosing function of every construction (ids must not depend on line numbers)
+        sites = []
+        for fn in ast.walk(m.tree):
+            if isinstance(fn, (ast.FunctionDef, ast.AsyncFunctionDef)):
+                for node in ast.walk(fn):
+                    if isinstance(node, ast.Call) and ast.unparse(node.func) == "SimulationState":
+                        sites.append((fn.name, node))
+        inside = {id(n) for _, n in sites}
+        sites += [("<module>", n) for n in ast.walk(m.tree)
+                  if isinstance(n, ast.Call) and ast.unparse(n.func) == "SimulationState" and id(n) not in inside]
+        seen, ordinal = set(), {}
+        for fname, node in sites:
+            if id(node) in seen:
+                continue
+            seen.add(id(node))
+            k = ordinal[fname] = ordinal.get(fname, -1) + 1
+            kws = {k_.arg: ast.unparse(k_.value) for k_ in node.keywords if k_.arg}
+            # a missing keyword means the class default (60 s / time 0) overrides the configuration: refuted;
+            # a keyword bound to an expression this rule does not recognise is undecided, never a violation
+            missing, unrecognised = [], []
+            for kw, suffix in (("sim_timestep_duration_seconds", "sim.timestep_duration_seconds"), ("sim_time", "sim.start_time")):
+                if kw not in kws and not any(k_.arg is None for k_ in node.keywords):
+                    missing.append(f"{kw} = <class default>")
+                elif not kws.get(kw, "").endswith(suffix):
+                    unrecognised.append(f"{kw} = {kws.get(kw, '**kwargs')}")
+            status = "refuted" if missing else ("unknown" if unrecognised else "proved")
+            out.append({"id": f"C15.initial_state_takes_step_length_from_config.{path}::{fname}#{k}", "kind": "call-site-rule",
+                        "status": status, "backend": "ast-rule", "secs": 0.0, "props": ["C15"], "no_regress": True,
+                        "detail": f"line {node.lineno}: " + "; ".join(missing + unrecognised) if status != "proved" else ""})
     return out
 
 
